@@ -586,9 +586,17 @@ func (w *World) slowSite(pc uintptr) bool {
 	if w.slowSites == nil {
 		w.slowSites = map[uintptr]bool{}
 	}
+	// no fmt here: this runs on the scheduler goroutine, whose synchronisation is
+	// hidden from the race detector, and fmt's printer pool would hand objects
+	// between it and the tasks without a visible happens-before edge
 	h := w.Cfg.SlowSiteSalt ^ 0xcbf29ce484222325
-	for _, c := range []byte(SiteOf(pc)) {
-		h = (h ^ uint64(c)) * 1099511628211
+	if f := runtime.FuncForPC(pc - 1); f != nil {
+		name := f.Name()
+		for i := 0; i < len(name); i++ {
+			h = (h ^ uint64(name[i])) * 1099511628211
+		}
+		_, line := f.FileLine(pc - 1)
+		h = (h ^ uint64(line)) * 1099511628211
 	}
 	v := SplitMix(h)%uint64(w.Cfg.SlowSiteMod) == 0
 	w.slowSites[pc] = v
